@@ -264,13 +264,53 @@ def s4_order_diff(ctx):
     src = it[2][0] if srt else it
     if src[0] == 'call' and src[1] in (('meth', 'items'), ('meth', 'keys')) and len(src[2]) == 1:
         src = src[2][0]
+    qty = f.get('quantity')
+    # a table of differences built first ({asset: {'quantity': d(asset)} for asset in ... if keep(asset)}) and iterated afterwards: the order for an asset carries
+    # what the table holds for it, and is emitted only if the table has an entry
+    from ..symex import _simplify_access
+    for _ in range(3):
+        if not (src[0] == 'comp' and src[1] == 'dict' and len(src[3]) == 1 and src[2][0] == 'tuple' and len(src[2][1]) == 2 and qty is not None):
+            break
+        K_, V_ = src[2][1]
+        ishape, isrc, iifs = src[3][0]
+        m_ = {}
+        if len(tg) == 2 and all(z[0] == 'bv' for z in tg):
+            m_ = {tg[0]: K_, tg[1]: V_}
+        elif len(tg) == 1 and tg[0][0] == 'bv':
+            m_ = {tg[0]: K_}
+        else:
+            break
+        # (every variable of the outer comprehension is replaced, so the result is written in the inner comprehension's variables only)
+        rep = lambda z: m_.get(z) if z[0] == 'bv' else None
+
+        def lit(t):
+            def g(z):
+                if z[0] == 'sub' and z[1][0] == 'dict' and z[2][0] == 'str':
+                    for kk, vv in z[1][1]:
+                        if kk == z[2]:
+                            return vv
+                return None
+            return T.replace(_simplify_access(t), g)
+        qty = lit(T.replace(qty, rep))
+        asset = T.replace(asset, rep) if asset is not None else asset
+        ifs = tuple(iifs) + tuple(lit(T.replace(c, rep)) for c in ifs)
+        tg = ishape
+        src = isrc
+        if src[0] == 'call' and src[1] in (('meth', 'items'), ('meth', 'keys')) and len(src[2]) == 1:
+            src = src[2][0]
     roots = {s[1] for s in T.subterms(src) if s[0] == 'var'}
     ctx.require('target_portfolio' in roots, 'C09.S4', 'an order is considered for every asset of the target portfolio', fn.site(), fmt(src)[:120], key='C09.S4|every-target')
     # quantity = target - current
-    qty = f.get('quantity')
     tq = ('sub', ('sub', V('target_portfolio'), asset), ('str', 'quantity'))
     cq = ('sub', ('sub', V('current_portfolio'), asset), ('str', 'quantity'))
     ok = qty is not None and T.teq(qty, T.t_sub(tq, cq))
+    # the rule reads quantities written in terms of the two portfolios handed in; a quantity taken from a collection computed on the way (a table of
+    # differences built first and iterated afterwards, private copies of the portfolios) is whatever that collection holds - not followed here
+    unread = qty is not None and not ok and any(s_[0] in ('accum', 'comp', 'lc', 'havoc') or (s_[0] == 'bv' and s_ != asset) or (s_[0] == 'call' and s_[1][0] == 'fn')
+                                               for s_ in T.subterms(qty))
+    if unread:
+        ctx.undecided('C09.S4', 'order quantity = target quantity - current quantity, asset by asset', fn.site(), 'quantity is %s' % fmt(qty)[:200])
+        return
     ctx.require(ok, 'C09.S4', 'order quantity = target quantity - current quantity, asset by asset', fn.site(), 'quantity is %s' % (fmt(qty)[:200] if qty else None), key='C09.S4|difference')
     # filter: exactly the non-zero differences
     okf = len(ifs) == 1 and ifs[0][0] == 'not' and ifs[0][1][0] == 'cmp' and ifs[0][1][1] == '==' and ZERO in (ifs[0][1][2], ifs[0][1][3])
